@@ -109,7 +109,7 @@ CnfText(c, i) == IF i > Len(c) THEN "" ELSE LineText(c[i]) \o (IF i < Len(c) THE
 
 \* status of the filter conjunction evaluated on the (only) element of `a`, and its record
 FilterEval ==
-  LET X == [F |-> Program(5, cnf), dev |-> {}]
+  LET X == [F |-> Program(5, cnf), dev |-> {}, tab |-> <<>>]
       root == DocPaths(Doc)
       env == <<[k |-> "root", root |-> root, lets |-> <<>>], VScope(root.v[2].v[1])>>
       r == EvalCnf(X, AsCnf(cnf), env)
